@@ -22,6 +22,9 @@ ALIASES = [("sampling_rate", "sr"), ("sample_width", "sw"), ("channels", "ch"), 
            ("energy_threshold", "eth"), ("use_channel", "uc"), ("max_read", "mr"), ("audio_format", "fmt"), ("validator", "val")]
 
 
+FRAGILE = [(rate, n) for rate in (7, 100, 441, 11025, 22050, 44100, 48000) for n in range(1, 130) if int(n / rate * rate) != n]
+
+
 def synth(r, rate, w, ch, W, nwin, partial):
     """audio whose windows are clearly active (about 60-70 dB for w>=2, 40 dB for w=1) or clearly silent"""
     loud = {1: 100, 2: 3000, 4: 300000}[w]
@@ -61,6 +64,11 @@ def gen_case(r, quick):
     aw = W / rate
     if r.random() < 0.2:
         aw = (W + 0.5) / rate          # non-integer aw*rate: window of W samples, counts use aw
+    if r.random() < 0.12:
+        # window sizes n for which (n / rate) * rate is not n in binary64: a conversion back from the block duration
+        # by truncation would lose a sample per window there
+        rate, W = r.choice(FRAGILE)
+        aw = (W + 0.5) / rate
     nwin = r.randint(0, 25 if quick else 60)
     data, pattern, act = synth(r, rate, w, ch, W, nwin, r.random() < 0.5)
     k = r.randint(1, 4)
